@@ -170,7 +170,8 @@ TrTake ==
           /\ UNCHANGED hvars
     /\ UNCHANGED <<room, risk, zombie>>
     /\ Observe({}) /\ Mark
-TrRelease == /\ Is("release") /\ held
+(* (releasing when no mock holds the hub - the one that was to hold it had already left - is nothing) *)
+TrRelease == /\ Is("release")
              /\ UNCHANGED <<hvars, room, risk, zombie>>
              /\ Observe({}) /\ Mark
 (* end of the behaviour: the driver lets go of a held mock and takes everything out of every *)
